@@ -184,11 +184,16 @@ pub unsafe fn simd_prefix_search_avx2(
         if lt_mask == 0xFFFFFFFF {
             left = batch_start + AVX2_BATCH_SIZE;
             continue;
-        } else if lt_mask == 0 {
+        } else if lt_mask == 0 && eq_mask == 0 {
+            // every prefix in the batch is greater than the target
             right = batch_start;
             continue;
         }
 
+        // Slots whose prefix equals the target must stay inside [left, right): their full keys
+        // still have to be compared. If the run of equal prefixes reaches the last lane it may
+        // continue past the batch, so the right bound cannot be narrowed in that case.
+        let prev_right = right;
         let first_ge_idx = (lt_mask.trailing_ones() / 4) as usize;
 
         if first_ge_idx > 0 {
@@ -204,7 +209,11 @@ pub unsafe fn simd_prefix_search_avx2(
                 (31 - eq_mask.leading_zeros()) as usize / 4
             };
             left = left.min(batch_start + first_eq_idx);
-            right = right.max(batch_start + last_eq_idx + 1);
+            right = if last_eq_idx == 7 {
+                prev_right
+            } else {
+                right.max(batch_start + last_eq_idx + 1)
+            };
         }
 
         break;
